@@ -28,6 +28,7 @@ uint64_t small_cap(Rng& g) { switch (g.below(10)) { case 0: return 0; case 1: re
 
 void gen_hist_ops(Rng& g, Rng& fr, const std::string& prop, unsigned nops, bool with_faults, J& ops) {
   // an abstract view of the pool keeps short plans meaningful (only ask for a push when an array is likely there)
+  int deep_follow = 0;
   unsigned n_pool = 0, n_arr = 0, n_map = 0, n_istr = 0, n_tag = 0, n_dstr = 0;
   for (unsigned i = 0; i < nops; i++) {
     int code;
@@ -43,6 +44,7 @@ void gen_hist_ops(Rng& g, Rng& fr, const std::string& prop, unsigned nops, bool 
       if (code == OP_DECREF && n_pool <= 1 && i + 1 < nops && tries < 10) continue;
       break;
     }
+    if (deep_follow > 0 && i + 1 < nops + 3) { static const int F[] = {OP_SIZE, OP_SERIALIZE, OP_SERIALIZE_ALLOC, OP_DESCRIBE, OP_COPY}; code = F[g.below(5)]; }
     HOp o; o.code = code; o.a = g.next() >> 8; o.b = g.next() >> 8; o.c = g.next() >> 8; o.d = g.below(16);
     switch (code) {
       case OP_NEW_INT: o.a = g.below(4); o.b = g.below(2); o.c = gen_u64(g); break;
@@ -58,7 +60,7 @@ void gen_hist_ops(Rng& g, Rng& fr, const std::string& prop, unsigned nops, bool 
       case OP_PUSH_MANY: { static const uint64_t C[] = {3, 8, 22, 23, 24, 25, 64, 254, 255, 256, 257, 1000, 3000}; o.c = (prop == "C03" && g.chance(1, 6)) ? g.range(65534, 65537) : C[g.below(sizeof C / sizeof C[0])]; if (nops > 40 && o.c > 300) o.c = 300; o.c -= 1; break; }
       case OP_SET: case OP_REPLACE: case OP_GET: o.c = g.below(64); break;
       case OP_SETVAL: { if (g.chance(1, 2)) o.c = gen_u64(g); else { GenProfile gp; MV t; do { Rng r2(g.next(), "f"); t = gen_mv(r2, gp, 99); } while (t.kind != MK_FLOAT); o.c = t.val; } break; }
-      case OP_LOAD_RAW: o.c = g.next(); break;
+      case OP_LOAD_RAW: o.c = g.next(); if ((prop == "C13" || prop == "C03" || prop == "C04") && g.chance(1, 2)) { o.d |= 8; deep_follow = 3; } else o.d &= ~8ull; break;
       default: break;
     }
     if (code <= OP_BUILD_TAG || code == OP_COPY || code == OP_LOAD || code == OP_LOAD_RAW || code == OP_GET || code == OP_TAG_ITEM || code == OP_INCREF) n_pool++;
@@ -66,6 +68,7 @@ void gen_hist_ops(Rng& g, Rng& fr, const std::string& prop, unsigned nops, bool 
     if (with_faults && fr.chance(1, 5)) {
       switch (fr.below(6)) { case 0: case 1: o.fk = F_NTH; o.fkk = fr.below(8); break; case 2: case 3: o.fk = F_FROM; o.fkk = fr.below(6); break; case 4: o.fk = F_REALLOC_ONLY; o.fkk = 0; break; default: o.fk = F_PROB; o.fkk = fr.range(100, 500); }
     }
+    if (deep_follow > 0 && code != OP_LOAD_RAW) { o.a = SEL_LAST; deep_follow--; }
     ops.push(hop_to_json(o));
   }
 }
